@@ -6,6 +6,7 @@ From V Require Import Common.Base Gen.JpegTables_gen JpegDCT.DctQuant JpegDCT.Dc
   JpegDCT.DctNumDefs JpegDCT.DctNumDefsF JpegDCT.DctNumProofsI JpegDCT.DctNumProofsJ JpegDCT.DctNumProofsK
   JpegDCT.DctNumProofsL JpegDCT.DctNumProofsF JpegDCT.DctNumProofsE JpegDCT.DctNumProofsM JpegDCT.DctNumProofsN
   JpegDCT.DctNumDefsG JpegDCT.DctNumProofsG JpegDCT.DctNumProofsQ JpegDCT.DctNumProofsX.
+From V Require Import JpegDCT.DctGeometry JpegDCT.DctPipeline JpegDCT.DctNumProofsImg.
 Import ListNotations.
 
 (* one 1-D pass of the coded inverse butterfly is exactly the integer matrix Mi *)
@@ -135,3 +136,35 @@ Proof.
   split; [exact (proj1 ex_block_hyps)|]. split; [exact (proj1 (proj2 (proj2 ex_block_hyps)))|].
   vm_compute. reflexivity.
 Qed.
+
+(* WHOLE greyscale image of any size through the model of the codec's geometry (block grid with
+   edge replication, DCTISlow, quantiser, IDCTISlow, block placement, pixel read-back) *)
+Theorem C11_grey_image_bound_delta : forall w h quality px,
+  (1 <= w)%Z -> (1 <= h)%Z -> (1 <= quality <= 100)%Z ->
+  length px = Z.to_nat (w * h) -> Forall (fun v => (0 <= v <= 255)%Z) px ->
+  forall x y, (0 <= x < w)%Z -> (0 <= y < h)%Z ->
+  (Rabs (IZR (znth (pipeline8 w h 1 quality px) (y * w + x)%Z 0%Z) - IZR (znth px (y * w + x)%Z 0%Z))
+   <= tableBound (scale_quant_table jpeg_qt_luma quality) + pipe_delta)%R.
+Proof. exact grey_image_bound_delta. Qed.
+Print Assumptions C11_grey_image_bound_delta.
+
+Theorem C11_grey_image_bound : forall w h quality px,
+  (1 <= w)%Z -> (1 <= h)%Z -> (1 <= quality <= 100)%Z ->
+  length px = Z.to_nat (w * h) -> Forall (fun v => (0 <= v <= 255)%Z) px ->
+  forall x y, (0 <= x < w)%Z -> (0 <= y < h)%Z ->
+  (Rabs (IZR (znth (pipeline8 w h 1 quality px) (y * w + x)%Z 0%Z) - IZR (znth px (y * w + x)%Z 0%Z))
+   <= boundGrey (scale_quant_table jpeg_qt_luma quality))%R.
+Proof. exact grey_image_bound. Qed.
+Print Assumptions C11_grey_image_bound.
+Example C11_grey_image_bound_instance :
+  (1 <= 11 /\ 1 <= 5 /\ 1 <= 90 <= 100 /\ length ex_img = Z.to_nat (11 * 5) /\
+   Forall (fun v => 0 <= v <= 255) ex_img /\ (0 <= 9 < 11 /\ 0 <= 3 < 5) /\
+   znth (pipeline8 11 5 1 90 ex_img) (3 * 11 + 9) 0 = 28 /\ znth ex_img (3 * 11 + 9) 0 = 29)%Z.
+Proof. exact ex_img_hyps. Qed.
+
+Theorem C11_grey_image_length : forall w h quality px, (0 <= w)%Z -> (0 <= h)%Z ->
+  length (pipeline8 w h 1 quality px) = Z.to_nat (w * h).
+Proof. exact grey_image_length. Qed.
+Print Assumptions C11_grey_image_length.
+Example C11_grey_image_length_instance : (0 <= 11)%Z /\ (0 <= 5)%Z /\ length (pipeline8 11 5 1 90 ex_img) = 55%nat.
+Proof. repeat split; try discriminate. Qed.
